@@ -1,0 +1,13 @@
+//go:build verif
+
+package render
+
+import (
+	"github.com/deadsy/sdfx/sdf"
+	v2 "github.com/deadsy/sdfx/vec/v2"
+)
+
+// VerifSuperTriangle exposes superTriangle (C20): read-only.
+func VerifSuperTriangle(vs v2.VecSet) (sdf.Triangle2, error) {
+	return superTriangle(vs)
+}
